@@ -31,7 +31,9 @@ def plan(tier, seed):
             shards.append({"kind": "sizes", "tier": tier, "seed": seed, "mtu": mtu, "shard": i, "subprocess": True})
         for i in range(10):
             shards.append({"kind": "faults", "tier": tier, "seed": seed, "shard": i, "n": 5, "subprocess": True})
+        shards.append({"kind": "realnet", "tier": tier, "seed": seed, "shard": 200, "subprocess": True})
     else:
+        shards.append({"kind": "realnet", "tier": tier, "seed": seed, "shard": 200, "subprocess": True})
         mtus = sorted(set(MTUS_QUICK + list(range(512, 1501, 21))))
         for i, mtu in enumerate(mtus):
             shards.append({"kind": "sizes", "tier": tier, "seed": seed, "mtu": mtu, "shard": i, "subprocess": True})
@@ -580,8 +582,98 @@ def run_faults(cfg, out, props=None, tag="C05", profiles_pool=None, extra=None):
     return total
 
 
+def run_realnet(cfg, out):
+    """the real ThreadedServer (Twisted reactor, real UDP sockets on loopback) and a real UdpClient, real clocks: guaranteed
+    payloads of every size around the single-datagram capacity, from both APIs, both ways.  Real time decides nothing by itself:
+    a size counts as undelivered only if the link demonstrably works (other sizes sent at the same time were delivered), the
+    connection is still up and a generous wait is over."""
+    import socket
+    import threading
+    import time
+    import logging
+    from mpgameserver import ServerContext, EventHandler, UdpClient
+    from mpgameserver.connection import Packet
+    from mpgameserver.twisted import ThreadedServer
+    logging.getLogger("mpgameserver").setLevel(100)
+    Packet.setMTU(1500)
+    maxp = Packet.MAX_PAYLOAD_SIZE
+    sizes = [11, 400, maxp + 1, 2 * maxp + 5] + list(range(maxp - 24, maxp + 1))
+    got_server, got_client, state = {}, {}, {"client": None}
+
+    class H(EventHandler):
+        def connect(self, client):
+            state["client"] = client
+            for n_, size in enumerate(sizes):
+                p = L.make_payload(0, n_ + 1, size)
+                (client.send_guaranteed(p) if n_ % 2 else client.send(p, retry=-1))
+
+        def handle_message(self, client, seqnum, msg=b""):
+            got_server[L.payload_id(bytes(msg))] = len(msg)
+    ctxt = ServerContext(H())
+    ctxt.setConnectionTimeout(20.0)
+    s_ = socket.socket(socket.AF_INET, socket.SOCK_DGRAM)
+    s_.bind(("127.0.0.1", 0))
+    port = s_.getsockname()[1]
+    s_.close()
+    server = ThreadedServer(ctxt, ("127.0.0.1", port))
+    server.start()
+    time.sleep(0.4)
+    cl = UdpClient(ctxt.server_root_key.getPublicKey())
+    cl.connect(("127.0.0.1", port))
+    t_end = time.time() + 20.0
+    while time.time() < t_end and not cl.connected():
+        try:
+            cl.update()
+        except Exception:
+            pass
+        if cl.conn is not None and getattr(cl.conn.status, "value", 0) == 4:
+            cl.forceDisconnect()
+            cl.connect(("127.0.0.1", port))
+        time.sleep(1 / 200)
+    if not cl.connected():
+        server.stop()
+        raise L.Inconclusive("realnet: the handshake over loopback did not complete in 20 s")
+    for n_, size in enumerate(sizes):
+        p = L.make_payload(1, n_ + 1, size)
+        (cl.send_guaranteed(p) if n_ % 2 else cl.send(p, retry=-1))
+    t_end = time.time() + 12.0
+    while time.time() < t_end and (len(got_server) < len(sizes) or len(got_client) < len(sizes)):
+        try:
+            cl.update()
+        except Exception:
+            out["counters"].inc("realnet_client_update_raised")
+        for seqnum, msg in cl.getMessages():
+            got_client[L.payload_id(bytes(msg))] = len(msg)
+        time.sleep(1 / 250)
+    alive = cl.connected() and state["client"] is not None and getattr(state["client"].status, "value", 0) == 2
+    out["counters"].inc("realnet_guaranteed_sends", 2 * len(sizes))
+    out["counters"].inc("realnet_guaranteed_delivered", len(got_server) + len(got_client))
+    for side, got, sender in (("server", got_server, 1), ("client", got_client, 0)):
+        missing = [size for n_, size in enumerate(sizes) if (sender, n_ + 1) not in got]
+        if missing and alive and len(got) >= 3:
+            out["violations"].append({"mechanism": "undelivered-over-real-sockets", "case": {"sizes": missing[:10]}, "case_key": ["realnet"],
+                                      "msg": "over real loopback sockets (Twisted reactor) %d of %d guaranteed payloads never reached the %s application within 12 s although "
+                                             "the connection is up and the other sizes arrived; undelivered sizes %r (single-datagram capacity %d)" % (
+                                                 len(missing), len(sizes), side, missing[:12], maxp)})
+        elif missing:
+            out["counters"].inc("realnet_inconclusive_link_down")
+    out["distinct"].add(h64("realnet", len(sizes)))
+    out["samples"].append({"scenario": "realnet", "sizes": sizes[:8], "delivered_to_server": len(got_server), "delivered_to_client": len(got_client)})
+    try:
+        cl.disconnect()
+        cl.waitForDisconnect()
+    except Exception:
+        pass
+    server.stop()
+    return 2 * len(sizes)
+
+
 def run_shard(cfg):
     out = {"violations": [], "counters": Counter(), "samples": [], "distinct": set()}
+    if cfg["kind"] == "realnet":
+        n = run_realnet(cfg, out)
+        return {"evaluations": n, "distinct": sorted(out["distinct"]), "distinct_count": n, "counters": dict(out["counters"]),
+                "violations": out["violations"], "samples": out["samples"]}
     if cfg["kind"] == "sizes":
         n = run_sizes(cfg, out)
     else:
@@ -599,7 +691,7 @@ def finish(tier, seed, results):
                          "worlds_keep_alive_longer_than_message_timeout", "sends_from_connect_callback", "sends_from_send_callback",
                          "worlds_with_counters_near_wrap", "shared_callback_batches", "aged_sessions_fragment_ids_reused",
                          "gap_scenarios_over_32_datagrams", "reordered_ack_path_streams", "handler_raised_in_message", "client_disconnects_with_retransmissions_in_flight",
-                         "second_session_messages_ok", "worlds_with_three_clients", "mtu_raised", "mtu_lowered", "callbacks_raised", "first_callback_of_datagram_raised", "sends_while_connecting", "client_sendto_failed", "long_haul_latency_above_half_a_second", "same_length_bursts_without_references", "huge_message_scenarios"], inconclusive)
+                         "second_session_messages_ok", "worlds_with_three_clients", "mtu_raised", "mtu_lowered", "callbacks_raised", "first_callback_of_datagram_raised", "sends_while_connecting", "client_sendto_failed", "long_haul_latency_above_half_a_second", "same_length_bursts_without_references", "huge_message_scenarios", "realnet_guaranteed_delivered"], inconclusive)
     cov = {
         "evaluations": m["evaluations"],
         "distinct_nontrivial": m["distinct_nontrivial"],
